@@ -8,7 +8,8 @@
 (*   target   = "/" safe* [ "?" alnum+ "=" alnum+ ]        safe = alnum | - . _ ~ /                           *)
 (*   header   = SP* key SP* ":" SP* value SP*   key = (alnum | -)+, value = visible bytes and inner spaces,   *)
 (*              non-empty; a repeated key keeps the last value                                                *)
-(*   body     = exactly Content-Length bytes; Content-Length (this spelling) is present, 1..7 digits          *)
+(*   body     = exactly Content-Length bytes; Content-Length (this spelling) is present, 1..7 digits, or a huge  *)
+(*              length whose body cannot have arrived (IsHugeLength): the stream ends inside that request          *)
 EXTENDS HttpBytes
 
 IsSafe(b) == IsAlnum(b) \/ b \in {45, 46, 95, 126, 47}
@@ -54,7 +55,17 @@ HeaderLines(s, p, h) ==
        IF c = 0 \/ key = <<>> \/ val = <<>> \/ ~AllBytes(key, IsKeyByte) \/ ~AllBytes(val, IsValueByte) THEN Bad
        ELSE HeaderLines(s, eol + 2, Put(h, key, val))
 
-(* one request starting at p: [ok, req, next] *)
+(* A declared body length that no stream examined here can satisfy: 8..19 digits without a leading zero (>= 10^7, < 2^64 - 1), or 20 *)
+(* digits up to 18446744073709551614 = SIZE_MAX - 1 (SIZE_MAX itself is the code's "not declared").  TLC integers are 32-bit, so *)
+(* the value is never computed: the request's body cannot have arrived, the stream is a well-formed stream cut off inside its last *)
+(* request, and the requests it yields - however it is split - are the complete ones before it.                                   *)
+HugePrefix == <<49, 56, 52, 52, 54, 55, 52, 52, 48, 55, 51, 55, 48, 57, 53, 53, 49>>
+IsHugeLength(clv) ==
+  /\ IsDigits(clv) /\ Len(clv) >= 8 /\ clv[1] # 48
+  /\ \/ Len(clv) <= 19
+     \/ Len(clv) = 20 /\ SubSeq(clv, 1, 17) = HugePrefix /\ Dec(SubSeq(clv, 18, 20)) <= 614
+
+(* one request starting at p: [ok, req, next], or [ok, pending] for a request whose declared body cannot have arrived *)
 OneRequest(s, p) ==
   LET eol == FindCRLF(s, p) IN
   IF eol = 0 THEN Bad ELSE
@@ -63,6 +74,7 @@ OneRequest(s, p) ==
   LET hl == HeaderLines(s, eol + 2, {}) IN
   IF ~hl.ok \/ ~Has(hl.h, bContentLength) THEN Bad ELSE
   LET clv == Get(hl.h, bContentLength) IN
+  IF IsHugeLength(clv) THEN [ok |-> TRUE, pending |-> TRUE] ELSE
   IF ~IsDigits(clv) \/ Len(clv) > 7 THEN Bad ELSE
   LET n == Dec(clv) IN
   IF hl.next + n - 1 > Len(s) THEN Bad ELSE
@@ -73,7 +85,9 @@ RECURSIVE RequestsFrom(_, _, _)
 RequestsFrom(s, p, acc) ==
   IF p > Len(s) THEN [ok |-> TRUE, reqs |-> acc]
   ELSE LET r == OneRequest(s, p) IN
-       IF ~r.ok THEN [ok |-> FALSE, reqs |-> acc] ELSE RequestsFrom(s, r.next, Append(acc, r.req))
+       IF ~r.ok THEN [ok |-> FALSE, reqs |-> acc]
+       ELSE IF "pending" \in DOMAIN r THEN [ok |-> TRUE, reqs |-> acc]
+       ELSE RequestsFrom(s, r.next, Append(acc, r.req))
 
 Parsed(s) == RequestsFrom(s, 1, <<>>)
 WellFormed(s) == Parsed(s).ok
